@@ -160,7 +160,7 @@ def extract():
                 lo = max(i - 6, 0)
                 hi = min(i + 9, len(lines))
                 win = [lines[k] for k in range(lo, hi) if fstart <= offs[k] < nxt]
-                paired = any(re.search(r"\berror_msg\s*\(", w) for w in win)
+                paired = any(re.search(r"\berror_msg\b", w) for w in win)
                 sites.append(dict(file=f.name, line=i + 1, func=fn, paired=paired, reading=bool(READING_FUNCS.match(fn))))
     return dict(facts=facts, where=where, refresh=all(refresh), refresh_each=refresh, unload_clears_lines=unload_clears_lines, sites=sites)
 
